@@ -2,5 +2,5 @@ import CRProofs.XsdEnum
 namespace CR.C03
 set_option maxRecDepth 100000 in
 set_option maxHeartbeats 1000000 in
-theorem signs_other : (otherSigns.all signOk) = true := by decide
+theorem signs_ger_4 : (((gerSigns.drop 90).take 30).all okNV) = true := by decide
 end CR.C03
